@@ -219,6 +219,8 @@ func init() {
 			// only for lower-case input, so nothing is said about hex(result)
 			g.assume(st, fmt.Sprintf("(=> (= %s 0) (and (= (blen %s) (* 2 (blen %s))) (= %s (unhex %s))))", res[1].T, a.T, res[0].T, res[0].T, a.T))
 			g.assume(st, fmt.Sprintf("(=> (not (= %s 0)) (= (blen %s) 0))", res[1].T, res[0].T))
+			// and every byte of the input is a hexadecimal digit (0-9, A-F, a-f)
+			g.assume(st, fmt.Sprintf("(=> (= %s 0) (forall ((c Int)) (! (=> (or (< c 48) (and (> c 57) (< c 65)) (and (> c 70) (< c 97)) (> c 102)) (noByte %s c)) :pattern ((noByte %s c)))))", res[1].T, a.T, a.T))
 			return res
 		},
 		"encoding/hex.EncodeToString": func(g *FuncGen, c *ast.CallExpr, callee *types.Func, st *State) []Val {
